@@ -125,8 +125,17 @@ def inline_sync(A, ci, B):
     off = len(A["locals"])
     boff = len(A["blocks"])
     A["locals"] = A["locals"] + list(B["locals"])
+    # a helper inlined twice into one function (or whose variables are spelled like the caller's) keeps distinct variable names:
+    # the rules address variables by name within one body
+    taken = {n for n, pl in A["vars"]}
+    ren = {}
     for name, place in B["vars"]:
-        A["vars"].append([name, _shift_place(place, off)])
+        if name in taken and name not in ren:
+            k = 2
+            while "%s~%d" % (name, k) in taken:
+                k += 1
+            ren[name] = "%s~%d" % (name, k)
+        A["vars"].append([ren.get(name, name), _shift_place(place, off)])
     # parameters := operands
     for i, a in enumerate(t["args"]):
         A["blocks"][ci]["s"].append({"lhs": [off + 1 + i], "rv": {"r": "use", "o": copy.deepcopy(a)}, "at": t["at"]})
